@@ -9,7 +9,13 @@ evaluated on the rules THE REAL CODE EMITTED (argv parsed back into the model's
 AST; the parser itself is checked by printing its result with the model's
 printer) for packets sampled per cell of the address x port arrangement induced by
 the entries, and compared with the extracted specification (spec_intercept, name
-servers, owner) — the property oracle on the implementation."""
+servers, owner) — the property oracle on the implementation.
+
+Stale-objects dimension (stale_dimension): the same oracle on the state that the
+real set-up of plan B leaves when the packet filter already holds the objects of
+an earlier session A on the same ports that was killed after k commands of its
+set-up; both sessions' commands are executed by the kernel model of C04
+(coq/Model/FwLife.v behind bin/c04_driver as a co-process)."""
 import io
 import ipaddress
 import json
@@ -26,17 +32,24 @@ RULE = ("plans x packets: 0-12 entries per family (widths concentrated at 0,8,24
         "same net), 0-3 name servers per family (inside/outside entries, IPv6 servers sharing their first 32 bits), user/group "
         "(nat), udp on/off (tproxy); packets per cell: subnet first/last/just-outside/inside addresses, range first/last/"
         "just-outside ports, name-server addresses and neighbours, tcp/udp, local/non-local, generated/forwarded, owner "
-        "matching or not; a case is non-trivial when at least one entry or name server matches a sampled packet; distinct by plan hash")
+        "matching or not; a case is non-trivial when at least one entry or name server matches a sampled packet; distinct by plan hash. "
+        "Stale-objects dimension: pairs (A, B) of plans on the same ports (B = fresh plan around A's addresses + A's entries kept / "
+        "flipped include<->exclude / widened / narrowed, name servers kept / dropped / new, DNS port same or other, nat owner same "
+        "or other, tproxy udp/mark independent); A's real set-up from an empty packet filter, cut after k external commands (the "
+        "complete set-up and 2 (quick) / 5 (thorough) other k; every k for the fixed pairs), then B's real set-up on that state; "
+        "packets from both plans' cells; distinct by (method, A, k, B)")
 TRUSTED_BASE = [
     "MODELLED, not verified: the kernel packet filter (coq/Model/FwWalk.v): iptables/ip6tables/nft first-match chain walk with jumps, RETURN, non-terminating MARK; mangle OUTPUT before nat OUTPUT; policy re-routing of packets carrying the tproxy mark to lo and hence PREROUTING; `inet` nft tables see both families; pf last-match filter rules, first-match rdr, route-to lo0; address text is parsed by the tools to the number the harness computes with Python's ipaddress module",
     "thorough tier validates the Linux part of that model against the real kernel in fresh network namespaces: (a) the recorded iptables/ip6tables command lists are executed by the real tools and iptables-save is compared (count, per-chain order, target, destination); (b) real verdicts: the emitted nat / nft / tproxy rules are loaded, listeners sit on the redirect and DNS ports, ~2000 TCP connects / UDP datagrams per run go to sampled cell representatives (both families, routed via lo, tproxy with the documented fwmark policy routing and IP_TRANSPARENT listeners) and who receives each probe is compared with the modelled walk; pf cannot be validated on this image (no BSD) and rests on pf.conf(5)",
     "CPython sorted() is stable and reverse=True keeps equal keys in original order (checked on every run by the token-for-token comparison, which contains equal-key entries)",
+    "stale-objects dimension: the kernel that executes the commands of both sessions is the MODELLED kernel of C04 (coq/Model/FwLife.v `exec` behind drivers/c04_driver.ml as a co-process: iptables -N/-F/-X/-I 1/-A/-D/-nL per family and table with `-X` refused for a non-empty or referenced chain, nft add table/add chain idempotent, flush chain, add rule, delete table, pfctl anchor load = replacement, enable/-E tokens, anchor calls; rules are opaque argv there); the state it holds at STARTED is parsed by this harness into the rule AST of Model/FwRules.v (same parser as for the recorded argv) and walked by Model/FwWalk.v; the thorough tier replays such two-session command sequences (incl. the failing -D / -X / -N of restore_firewall and of refused starts) with the real iptables / ip6tables / nft in fresh network namespaces and compares every exit status and the number of rules per chain at the end with that kernel model (pf: not validatable here)",
     "harness/props/c03.py: generators, recorders replacing linux.ssubprocess / pf.pfctl / pf.ioctl / pf.pf_get_dev / pf.ssubprocess, argv parser (round-trip checked through the model's printer)",
 ]
 ASSUMPTIONS = [
     "plans are well-formed as the client produces them (C15/C16): width <= 32/128, fport <= lport < 65536, fport = 0 -> lport = 0, redirect port of an active family != 0, tproxy mark != 0",
     "packets start with mark 0; tproxy: the user installed the documented `ip rule fwmark <tmark>` / `ip route local default dev lo` policy routing",
     "pf theorems: every family that is set up has at least one subnet entry (otherwise pf.Method.setup_firewall dies with UnboundLocalError: includes — recorded observation) and the packet's source is not the loopback address (FreeBSD rdr rule has `from ! lo`)",
+    "stale-objects dimension: ONE earlier session, same method, same redirect ports (the object names contain the port), killed between two external commands (a command is atomic); only packets of a family the running session sets up are judged (for a family it does not set up firewall.main never calls the method, so that family's old objects stay as any foreign rule would; counted, not judged); a second session that refuses to start installs nothing and is outside C03 (counted: nat with an owner match on one side only cannot delete the other kind of hook, `-X` fails)",
     "owner restriction is stated per method as implemented: nat marks by uid/gid; nft/tproxy/pf ignore user and group (F15, --group is not rejected by assert_features; repaired under C15)",
 ]
 
@@ -432,7 +445,7 @@ def mask(fam, n, w):
     return (n >> (b - w)) << (b - w) if w < b else n
 
 
-def gen_plan(rng, small=False):
+def gen_plan(rng, small=False, given_anchors=None):
     pl = {"entries": [], "ns": [], "udp": False, "user": None, "group": None,
           "tmark": rng.choice(["0x01", "0x01", "1", "0x10", "255"])}
     used = set()
@@ -446,8 +459,11 @@ def gen_plan(rng, small=False):
     anchors = {}
     for fam in (4, 6):
         b = BITS[fam]
-        an = [rng.getrandbits(b) for _ in range(3)]
-        an.append(an[0] ^ (1 << rng.randint(0, b - 1)))
+        if given_anchors is None:
+            an = [rng.getrandbits(b) for _ in range(3)]
+            an.append(an[0] ^ (1 << rng.randint(0, b - 1)))
+        else:
+            an = list(given_anchors[fam])        # the stale-objects dimension: a second plan around the same addresses
         anchors[fam] = an
         kind = rng.random()
         n = 0 if kind < 0.15 else rng.randint(1, 3) if (kind < 0.5 or small) else rng.randint(1, 12)
@@ -797,10 +813,623 @@ def correspondence(ctx):
                     v = dict(v, ns=[n for n in v["ns"] if n["fam"] != fam])
         check_case(ctx, m, v, [])
         ctx.count("f15_group_ignored_cases")
+    # ---- the packet filter already holds the session's own objects (left by a killed session with another plan)
+    stale_dimension(ctx)
     if not quick:
         netns_validate(ctx)
         kernel_verdicts(ctx)
     ctx.programs = ctx.evaluations
+
+
+# ----------------------------------------------------------------- own objects left by a killed session
+# A session that is killed (SIGKILL / OOM) never runs its tear-down: its table / chains / anchor, named for the port,
+# stay in the packet filter.  The next session on the same port must install rules that decide by ITS entries alone.
+# Here the REAL set-up of plan A runs against a kernel model that executes every command (coq/Model/FwLife.v, the
+# kernel of C04, as a co-process: iptables -N/-F/-X/-I/-A/-D/-nL, nft add/flush/delete, pfctl anchor loads ...), the
+# state after k commands (or after all of them) is what the killed session left, then the REAL set-up of plan B runs on
+# that state, and the state at B's STARTED is parsed back into the model's rule AST and walked (coq/Model/FwWalk.v) for
+# packets drawn from both plans' entries — compared with the specification of plan B.
+class Kernel:
+    """coq/Model/FwLife.v `exec` behind drivers/c04_driver.ml (KSET / KCMD / KGET)"""
+
+    def __init__(self, driver):
+        self.p = subprocess.Popen(["bash", "-c", "ulimit -s unlimited 2>/dev/null; exec %s" % driver],
+                                  stdin=subprocess.PIPE, stdout=subprocess.PIPE)
+        self.empty = self.ask("KGET")            # the co-process starts from k_empty (built-in chains only, pf loaded, off)
+
+    def ask(self, line):
+        self.p.stdin.write(line.encode() + b"\n")
+        self.p.stdin.flush()
+        r = self.p.stdout.readline().decode().rstrip("\n")
+        if r.startswith("ERROR") or r == "":
+            raise KernelError("kernel co-process: %r on %s" % (r, line[:300]))
+        return r
+
+    def set(self, enc):
+        assert self.ask("KSET " + enc) == "OK"
+
+    def get(self):
+        return self.ask("KGET")
+
+    def cmd(self, argv, stdin=b""):
+        r = self.ask("KCMD 0 %s %s" % (hx(stdin), " ".join(hx(a) for a in argv)))
+        rc, out, err = r.split(" ")
+        return int(rc), (b"" if out == "-" else bytes.fromhex(out)), (b"" if err == "-" else bytes.fromhex(err))
+
+    def close(self):
+        try:
+            self.p.stdin.close()
+            self.p.wait(timeout=5)
+        except Exception:                            # noqa: BLE001
+            self.p.kill()
+
+
+class KernelError(Exception):
+    pass
+
+
+def _unhx(x):
+    return b"" if x == "-" else bytes.fromhex(x)
+
+
+def dec_ktable(s):
+    """drivers/c04_driver.ml str_of_table: name:rule,rule;name:...  (rule = tok.tok...)"""
+    if s == "-":
+        return []
+    out = []
+    for c in s.split(";"):
+        n, _, rest = c.partition(":")
+        out.append((_unhx(n), [[_unhx(t) for t in r.split(".")] if r else [] for r in rest.split(",")] if rest else []))
+    return out
+
+
+def dec_kstate(s):
+    f = s.split(" ")
+    if len(f) != 6:
+        raise KernelError("state %r" % s[:200])
+    nft = []
+    if f[4] != "-":
+        for x in f[4].split("|"):
+            n, _, t = x.partition("=")
+            nft.append((_unhx(n), dec_ktable(t)))
+    q = f[5].split(",")
+    anchors = [tuple(_unhx(y) for y in c.split(".")) for c in q[7].split("+")] if q[7] else []
+    return {"v6nat": dec_ktable(f[0]), "v6mangle": dec_ktable(f[1]), "v4nat": dec_ktable(f[2]),
+            "v4mangle": dec_ktable(f[3]), "nft": nft, "anchors": anchors}
+
+
+def kernel_for(ctx):
+    """the C04 driver (extraction of Model/FwLife.v); built from the current tree like the C03 driver"""
+    import build
+    try:
+        with build.Lock():
+            build.coq_make(["Extract/C04_extract.vo"])
+            drv = build.build_driver("C04")
+    except build.BuildError as e:
+        drv = os.path.join(build.BIN, "c04_driver")
+        if not os.path.exists(drv):
+            raise
+        ctx.notes.append("kernel co-process: %s failed, the existing bin/c04_driver is used" % e.stage)
+    return Kernel(drv)
+
+
+def run_real_k(method, pl, kern, snaps=None, trace=None):
+    """the real firewall.main with the dialogue of `pl`; every external command (iptables / ip6tables / nft / pfctl /
+    kldload, the pf ioctl that adds an anchor call) is executed by the kernel co-process on its held state.  When the
+    helper writes STARTED the boundary freezes (later commands — the tear-down after EOF — do nothing), so that the
+    state held afterwards is the one of the running session.  snaps: list receiving the state after each command;
+    trace: list receiving (argv, exit status the kernel model answered) of each command."""
+    import struct
+    m = load()
+    firewall, linux, pf, helpers = m["firewall"], m["linux"], m["pf"], m["helpers"]
+    w = types.SimpleNamespace(frozen=False, n=0, started=False)
+
+    def external(argv, stdin=b""):
+        if w.frozen:
+            return 0, b"", b""
+        rc, out, err = kern.cmd([a.encode("latin1") if isinstance(a, str) else a for a in argv], stdin)
+        w.n += 1
+        if snaps is not None:
+            snaps.append(kern.get())
+        if trace is not None:
+            trace.append(([a if isinstance(a, str) else a.decode("latin1") for a in argv], rc))
+        return rc, out, err
+
+    def call(argv, **kw):
+        return external(argv)[0]
+
+    def check_output(argv, **kw):
+        rc, out, _ = external(argv)
+        if rc:
+            raise subprocess.CalledProcessError(rc, argv)
+        return out
+
+    fake_sp = types.SimpleNamespace(call=call, check_output=check_output,
+                                    CalledProcessError=subprocess.CalledProcessError, PIPE=subprocess.PIPE)
+
+    def pfctl(args, stdin=None):
+        argv = ["pfctl"] + args.split()
+        rc, out, err = external(argv, stdin or b"")
+        if rc:
+            raise helpers.Fatal("%r returned %d" % (argv, rc))        # pf.py:395-400
+        return (out, err)
+
+    def ioctl(dev, req, buf):
+        pfo = pf.pf
+        if req == pfo.DIOCCHANGERULE:
+            raw = bytes(buf)
+            action = struct.unpack("I", raw[pfo.ACTION_OFFSET:pfo.ACTION_OFFSET + 4])[0]
+            if action == pfo.PF_CHANGE_ADD_TAIL:
+                name = raw[pfo.ANCHOR_CALL_OFFSET:pfo.ANCHOR_CALL_OFFSET + pfo.MAXPATHLEN].split(b"\0")[0]
+                kind = struct.unpack("I", raw[pfo.RULE_ACTION_OFFSET:pfo.RULE_ACTION_OFFSET + 4])[0]
+                external(["ioctl-add-anchor", "rdr" if kind == pfo.PF_RDR else "pass", name])
+        return 0
+
+    class Out:
+        def write(self, b):
+            if b == b"STARTED\n":
+                w.started = True
+                w.frozen = True
+
+        def flush(self):
+            pass
+
+    saved = (linux.ssubprocess, pf.ssubprocess, pf.pfctl, pf.ioctl, pf.pf_get_dev, pf.pf, firewall.setup_daemon)
+    linux.ssubprocess = fake_sp
+    pf.ssubprocess = fake_sp
+    pf.pfctl = pfctl
+    pf.ioctl = ioctl
+    pf.pf_get_dev = lambda: 99
+    pf._pf_context.update(started_by_sshuttle=0, loaded_by_sshuttle=True, Xtoken=[])     # a new helper process
+    name = method
+    if method in ("pff", "pfd", "pfo"):
+        name = "pf"
+        pf.pf = {"pff": pf.FreeBsd, "pfd": pf.Darwin, "pfo": pf.OpenBsd}[method]()
+    lines = ["ROUTES"]
+    for e in pl["entries"]:
+        lines.append("%d,%d,%d,%s,%d,%d" % (AF[e["fam"]], e["width"], int(e["excl"]), e["txt"], e["fport"], e["lport"]))
+    lines.append("NSLIST")
+    for n in pl["ns"]:
+        lines.append("%d,%s" % (AF[n["fam"]], n["txt"]))
+    lines.append("PORTS %d,%d,%d,%d" % (pl["port6"], pl["port4"], pl["dns6"], pl["dns4"]))
+    lines.append("GO %d %s %s %s %d" % (int(pl["udp"]), "-" if pl["user"] is None else pl["user"],
+                                        "-" if pl["group"] is None else pl["group"], pl["tmark"], 4242))
+    stdin = io.BytesIO(("\n".join(lines) + "\n").encode())
+    firewall.setup_daemon = lambda: (stdin, Out())
+    status = "STARTED"
+    try:
+        try:
+            firewall.main(name, False)
+        except KernelError:
+            raise
+        except Exception as e:                      # noqa: BLE001
+            status = "%s: %s" % (type(e).__name__, str(e)[:200])
+    finally:
+        (linux.ssubprocess, pf.ssubprocess, pf.pfctl, pf.ioctl, pf.pf_get_dev, pf.pf, firewall.setup_daemon) = saved
+    if status == "STARTED" and not w.started:
+        status = "NOT-STARTED"
+    return status
+
+
+def fam_active(pl, fam):
+    return any(e["fam"] == fam for e in pl["entries"]) or any(n["fam"] == fam for n in pl["ns"])
+
+
+def state_rules(method, pl, st):
+    """the objects the kernel state holds under the names of plan pl's ports, as WALKR encodings per family.
+    Families plan pl does not set up are left out for iptables / pf (their rule sets are per family)."""
+    enc = {4: [], 6: []}
+    lat = lambda r: [t.decode("latin1") for t in r]                   # noqa: E731
+    if method in ("nat", "tproxy"):
+        for fam in (4, 6):
+            if not fam_active(pl, fam):
+                continue
+            prog = "iptables" if fam == 4 else "ip6tables"
+            for tb in ("nat", "mangle"):
+                for name, rules in st["v%d%s" % (fam, tb)]:
+                    for r in rules:
+                        enc[fam].append(parse_ipt([prog, "-w", "-t", tb, "-A", name.decode("latin1")] + lat(r),
+                                                  pl["port%d" % fam]))
+    elif method == "nft":
+        for name, chains in st["nft"]:
+            mm = re.match(rb"sshuttle-ipv([46])-(\d+)$", name)
+            if not mm:
+                raise ParseError("nft table %r" % name)
+            fam, port = int(mm.group(1)), int(mm.group(2))
+            for cname, rules in chains:
+                for r in rules:
+                    enc[fam].append(parse_nft(["nft", "add rule", "inet", name.decode("latin1")] + lat(r), fam, port))
+    else:
+        anchors = dict(st["anchors"])
+        for fam in (4, 6):
+            if not fam_active(pl, fam):
+                continue
+            text = anchors.get(("sshuttle%s-%d" % ("6" if fam == 6 else "", pl["port%d" % fam])).encode())
+            enc[fam] = parse_pf(text) if text else []
+    return enc
+
+
+def walk_state(ctx, method, pl, enc, pkts):
+    mm = model_name(method)
+    if not pkts:
+        return []
+    if mm == "nft":
+        return ctx.run_driver(["WALKR nft %s - %s / %s" % (",".join(pkt_token(p) for p in pkts),
+                                                          " ".join(enc[6]), " ".join(enc[4]))])[0].split(" ")
+    tm = nh(int(pl["tmark"], 0))
+    real = [None] * len(pkts)
+    for fam in (6, 4):
+        idx = [i for i, p in enumerate(pkts) if p["fam"] == fam]
+        if not idx:
+            continue
+        r = ctx.run_driver(["WALKR %s %s %s %s" % (mm, ",".join(pkt_token(pkts[i]) for i in idx), tm,
+                                                  " ".join(enc[fam]))])[0].split(" ")
+        for i, v in zip(idx, r):
+            real[i] = v
+    return real
+
+
+def owner_of(pl):
+    return (pl["user"], pl["group"])
+
+
+def mark_rule_enc(pl, fam):
+    """the items of nat.py:38-44 `-m owner [--uid-owner U] [--gid-owner G] -j MARK --set-mark <port>` in the parser's encoding"""
+    port = pl["port%d" % fam]
+    return ",".join(["MOWNER"] + (["UID.%d" % pl["user"]] if pl["user"] is not None else [])
+                    + (["GID.%d" % pl["group"]] if pl["group"] is not None else [])
+                    + ["J.MARK", "SETMARK.%s.%s" % (hx(str(port)), nh(port))])
+
+
+def f140_identity(plA, plB, p):
+    has = lambda pl: pl["user"] is not None or pl["group"] is not None        # noqa: E731
+    return (has(plA) and has(plB) and owner_of(plA) != owner_of(plB) and p["origin"] == "L"
+            and (plA["user"] is None or p["uid"] == plA["user"]) and (plA["group"] is None or p["gid"] == plA["group"]))
+
+
+F140_TEXT = ("nat with --user/--group: the owner MARK rule sits in the built-in mangle OUTPUT chain and restore_firewall only "
+             "deletes the rule of the CURRENT user/group; after a session that died without tear-down (kill -9) a later "
+             "session on the same port with another --user/--group leaves that MARK rule in place (same residue as F41), "
+             "and the earlier owner's traffic to the new session's included subnets is diverted although the property "
+             "says traffic of another owner is left alone")
+
+
+def stale_eval(ctx, method, plA, kdesc, plB, st, pkts):
+    """oracle of plan B on the kernel state `st` reached by the real set-up of B over what A left.
+    Returns list of failing (packet, got, want, finding)."""
+    mm = model_name(method)
+    desc = {"method": method, "plan": {k: v for k, v in plB.items() if k != "anchors"},
+            "stale": {"plan": {k: v for k, v in plA.items() if k != "anchors"}, "after_commands": kdesc}}
+    try:
+        enc = state_rules(method, plB, st)
+    except ParseError as e:
+        ctx.disagree("stale objects: the packet-filter state after set-up B over the leftovers of A cannot be parsed "
+                     "into the model's rule AST", desc, str(e), "")
+        return []
+    n_all = len(pkts)
+    pkts = [p for p in pkts if fam_active(plB, p["fam"])]
+    ctx.count("stale_packets_of_a_family_not_set_up_not_judged", n_all - len(pkts))
+    if not pkts:
+        return []
+    ev = [dict(kv.split("=") for kv in s.split(" "))
+          for s in ctx.run_driver(["EVAL %s %s" % (",".join(pkt_token(p) for p in pkts), plan_tokens(plB))])[0].split(" | ")]
+    real = walk_state(ctx, method, plB, enc, pkts)
+    owner_differs = method == "nat" and owner_of(plA) != owner_of(plB)
+    fails = []
+    for p, e, r in zip(pkts, ev, real):
+        if e["wf"] != "1":
+            ctx.disagree("generated plan is not well-formed", desc, e, "")
+            break
+        want = expected(method, plB, p, e)
+        ctx.count("stale_%s_%s" % (method, "oos" if want is None else want.split(":")[0]))
+        if want is not None and r != want:
+            rep = dict(desc, packet=p, got=r, want=want)
+            finding = None
+            if method == "tproxy" and e["f18"] == "1":
+                finding = "F18"
+                rep["finding_id"] = "F18"
+                ctx.violation("tproxy diverts UDP/53 to an address that merely shares 32 bits with an IPv6 name server", rep)
+            else:
+                if owner_differs and f140_identity(plA, plB, p):
+                    # exact identity of F140: nat, both sessions with an owner match, the packet comes from the EARLIER
+                    # session's uid/gid, mangle OUTPUT holds the running session's MARK rule (inserted at position 1)
+                    # followed by exactly the earlier session's MARK rule, and without that one rule the verdict is right
+                    fam = p["fam"]
+                    mo = [c for c in enc[fam] if c.startswith("C:mangle:A:OUTPUT:")]
+                    if len(mo) == 2 and mo[1] == "C:mangle:A:OUTPUT:" + mark_rule_enc(plA, fam):
+                        drop = [i for i, c in enumerate(enc[fam]) if c.startswith("C:mangle:A:OUTPUT:")][1]
+                        rest = enc[fam][:drop] + enc[fam][drop + 1:]
+                        alt = walk_state(ctx, method, plB, {fam: rest, 10 - fam: []}, [p])[0]
+                        if alt == want:
+                            finding = "F140"
+                if finding == "F140":
+                    rep["finding_id"] = "F140"
+                    ctx.count("f140_hits")
+                    ctx.violation("nat: the owner MARK rule of a killed session with another --user/--group stays in "
+                                  "mangle OUTPUT: that owner's traffic is diverted", rep)
+                else:
+                    ctx.violation("%s: set-up over the objects a killed session left on the same port: verdict differs "
+                                  "from the specification of the running session's entries" % method, rep)
+            fails.append((p, r, want, finding))
+        elif r != e[mm] and not owner_differs:
+            # outside the property's scope (or agreeing with it by accident): the state must still decide as the model's
+            # clean-state rules do (c03_nft_stale_own_objects; restore_firewall / anchor reload for the others)
+            ctx.disagree("stale objects: walk on the state after set-up B over the leftovers of A differs from the model's "
+                         "verdict for plan B on a clean packet filter (%s)" % method, dict(desc, packet=p), r, e[mm])
+    return fails
+
+
+def stale_case(ctx, kern, method, plA, plB, pkts, rng=None, nprefix=0, only_k=None):
+    """A set up for real from an empty packet filter, killed after k commands (every k in only_k / the complete set-up and
+    nprefix prefixes chosen by rng / all prefixes when nprefix is None); then B for real on that state; oracle of B."""
+    kern.set(kern.empty)
+    snaps = []
+    stA = run_real_k(method, plA, kern, snaps)
+    desc = {"method": method, "plan_A": {k: v for k, v in plA.items() if k != "anchors"}}
+    if stA != "STARTED":
+        ctx.disagree("stale objects: the first session did not reach STARTED on an empty packet filter", desc, stA, "STARTED")
+        return []
+    states = []                      # (commands issued, state) where the state changed
+    prev = kern.empty
+    for i, s in enumerate(snaps):
+        if s != prev:
+            states.append((i + 1, s))
+            prev = s
+    if not states:
+        return []
+    if only_k is not None:
+        chosen = [(k, snaps[k - 1]) for k in only_k if 1 <= k <= len(snaps)]
+    elif nprefix is None:
+        chosen = states
+    else:
+        chosen = [states[-1]] + (rng.sample(states[:-1], min(nprefix, len(states) - 1)) if nprefix and len(states) > 1 else [])
+    allfails = []
+    for k, s in chosen:
+        kdesc = k
+        complete = (k, s) == states[-1]
+        kern.set(s)
+        stB = run_real_k(method, plB, kern)
+        ctx.count("stale_runs_%s" % method)
+        ctx.count("stale_after_%s" % ("complete_setup" if complete else "prefix"))
+        if stB != "STARTED":
+            # the second session refuses to start: nothing is installed for it; outside C03 (recorded)
+            expected_refusal = method == "nat" and (owner_of(plA) == (None, None)) != (owner_of(plB) == (None, None))
+            ctx.count("stale_%s_second_session_refused%s" % (method, "_owner_hook_differs" if expected_refusal else ""))
+            if not expected_refusal:
+                # the code as found always starts here (restore_firewall / idempotent nft commands / anchor reload)
+                ctx.disagree("stale objects: the second session does not reach STARTED on the objects a killed session left",
+                             dict(desc, plan_B={x: y for x, y in plB.items() if x != "anchors"}, after_commands=k),
+                             stB, "STARTED")
+            continue
+        st = dec_kstate(kern.get())
+        fails = stale_eval(ctx, method, plA, kdesc, plB, st, pkts)
+        allfails += fails
+        ctx.case(("stale", method, plan_tokens(plA), k, plan_tokens(plB)), nontrivial=bool(plA["entries"] or plA["ns"]),
+                 sample=None)
+    return allfails
+
+
+def real_state_counts(text):
+    """{(kind, table, chain): number of rules} from `iptables-save` / `ip6tables-save` / `nft list ruleset` output sections"""
+    v4, v6, nft = text.split("=====\n")
+    out = {}
+    for fam, save in ((4, v4), (6, v6)):
+        tb = None
+        for ln in save.split("\n"):
+            if ln.startswith("*"):
+                tb = ln[1:]
+            elif ln.startswith(":"):
+                out.setdefault((fam, tb, ln[1:].split(" ")[0]), 0)
+            elif ln.startswith("-A "):
+                k = (fam, tb, ln.split(" ")[1])
+                out[k] = out.get(k, 0) + 1
+    table = chain = None
+    for ln in nft.split("\n"):
+        t = ln.strip()
+        mm = re.match(r"table (\S+) (\S+) \{$", t)
+        if mm:
+            # iptables-nft keeps its own tables (`table ip nat` ...) in the same rule set: counted through iptables-save
+            table = mm.group(2) if mm.group(1) == "inet" else False
+        elif re.match(r"chain (\S+) \{$", t):
+            chain = t.split(" ")[1]
+            if table:
+                out[("nft", table, chain)] = 0
+        elif t == "}":
+            if chain is not None:
+                chain = None
+            else:
+                table = None
+        elif chain is not None and table and t and not t.startswith("type "):
+            out[("nft", table, chain)] += 1
+    return out
+
+
+def model_state_counts(st):
+    out = {}
+    for fam in (4, 6):
+        for tb in ("nat", "mangle"):
+            for name, rules in st["v%d%s" % (fam, tb)]:
+                out[(fam, tb, name.decode("latin1"))] = len(rules)
+    for name, chains in st["nft"]:
+        for cname, rules in chains:
+            out[("nft", name.decode("latin1"), cname.decode("latin1"))] = len(rules)
+    return out
+
+
+def stale_netns_validate(ctx, kern, rng):
+    """thorough: the command sequences of the stale-objects dimension (A's set-up cut after k commands, then B's set-up
+    with its restore_firewall / idempotent nft commands) executed by the REAL iptables / ip6tables / nft in a fresh
+    network namespace: the exit status of every command and the number of rules per chain at the end must be what the
+    kernel model (coq/Model/FwLife.v) answered."""
+    import shlex
+    ok = subprocess.run(["timeout", "20", "unshare", "-n", "bash", "-c", "iptables -w -t nat -nL >/dev/null && nft list ruleset"],
+                        stdout=subprocess.PIPE, stderr=subprocess.PIPE)
+    if ok.returncode != 0:
+        ctx.notes.append("stale-objects netns validation skipped: unshare/iptables/nft unusable (%s)" % ok.stderr.decode()[-200:])
+        return
+    n_ok = n_cmds = 0
+    for i in range(16):
+        plA = gen_plan(rng, small=True)
+        plB = related_plan(rng, plA)
+        for m in ("nat", "nft", "tproxy"):
+            va, vb = variant(rng, plA, m), variant(rng, plB, m)
+            if m == "nat" and rng.random() < 0.5:
+                vb = dict(vb, user=va["user"], group=va["group"])
+            kern.set(kern.empty)
+            tA = []
+            if run_real_k(m, va, kern, trace=tA) != "STARTED" or not tA:
+                continue
+            for k in sorted({len(tA), rng.randint(1, len(tA)), rng.randint(1, len(tA))}):
+                kern.set(kern.empty)
+                for argv, _ in tA[:k]:
+                    kern.cmd([a.encode("latin1") for a in argv])
+                tB = []
+                stB = run_real_k(m, vb, kern, trace=tB)
+                # the helper's tear-down after a refused start is frozen out only after STARTED: it is part of the trace
+                st = dec_kstate(kern.get())
+                seq = tA[:k] + tB
+                script = ["ip link set lo up"]
+                for argv, _ in seq:
+                    script.append("%s >/dev/null 2>&1; echo RC $?" % " ".join(shlex.quote(a) for a in argv))
+                script.append("echo =====; iptables-save; echo =====; ip6tables-save; echo =====; nft list ruleset")
+                r = subprocess.run(["timeout", "180", "unshare", "-n", "bash", "-c", "\n".join(script)],
+                                   stdout=subprocess.PIPE, stderr=subprocess.PIPE)
+                desc = {"method": m, "plan_A": {x: y for x, y in va.items() if x != "anchors"}, "after_commands": k,
+                        "plan_B": {x: y for x, y in vb.items() if x != "anchors"}, "second_session": stB}
+                head, _, rest = r.stdout.decode().partition("=====\n")
+                rcs = [int(x[3:]) for x in head.split("\n") if x.startswith("RC ")]
+                if len(rcs) != len(seq):
+                    ctx.notes.append("stale-objects netns validation: no result for %s (%s)" % (m, r.stderr.decode()[-200:]))
+                    continue
+                bad = [(j, seq[j][0], rcs[j], seq[j][1]) for j in range(len(seq)) if (rcs[j] != 0) != (seq[j][1] != 0)]
+                if bad:
+                    ctx.disagree("stale objects: the real tool's exit status differs from the kernel model's (command index, argv, "
+                                 "real, model)", desc, bad[:3], "equal")
+                    continue
+                real, model = real_state_counts(rest), model_state_counts(st)
+                diff = {str(x): (real.get(x, 0), model.get(x, 0)) for x in set(real) | set(model)
+                        if real.get(x, 0) != model.get(x, 0)}
+                if diff or {x for x in real if x not in model and x[0] == "nft"} or {x for x in model if x not in real and x[0] == "nft"}:
+                    ctx.disagree("stale objects: rules per chain after both sessions, real tools vs kernel model (real, model)",
+                                 desc, diff, "equal")
+                    continue
+                n_ok += 1
+                n_cmds += len(seq)
+                ctx.count("stale_netns_sequences_%s" % m)
+    ctx.extra["stale_netns_sequences_validated"] = n_ok
+    ctx.extra["stale_netns_commands_validated"] = n_cmds
+
+
+def related_plan(rng, plA):
+    """a second plan for the same ports around the same addresses: some entries of A kept, some turned from include to
+    exclude or back, some widened / narrowed, new ones; name servers kept / dropped / new"""
+    for _ in range(20):
+        plB = gen_plan(rng, small=rng.random() < 0.5, given_anchors=plA["anchors"])
+        extra = []
+        for e in plA["entries"]:
+            r = rng.random()
+            if r < 0.2:
+                extra.append(dict(e))
+            elif r < 0.45:
+                extra.append(dict(e, excl=not e["excl"]))
+            elif r < 0.55:
+                w2 = min(BITS[e["fam"]], max(0, e["width"] + rng.choice([-1, 1, -8, 8])))
+                net = mask(e["fam"], e["net"], w2)
+                extra.append(dict(e, width=w2, net=net, txt=addr_txt(e["fam"], net), excl=rng.random() < 0.5))
+        plB["entries"] = plB["entries"] + extra
+        rng.shuffle(plB["entries"])
+        for n in plA["ns"]:
+            if rng.random() < 0.3:
+                plB["ns"].append(dict(n))
+        for fam in (4, 6):
+            if plA["port%d" % fam]:
+                plB["port%d" % fam] = plA["port%d" % fam]
+            elif fam_active(plB, fam) and not plB["port%d" % fam]:
+                plB["port%d" % fam] = rng.randint(20000, 30000)
+            if plA["dns%d" % fam] and rng.random() < 0.5:
+                plB["dns%d" % fam] = plA["dns%d" % fam]
+            if any(n["fam"] == fam for n in plB["ns"]) and not plB["dns%d" % fam]:
+                plB["dns%d" % fam] = rng.randint(30001, 40000)
+        ports = [plB[k] for k in ("port4", "port6", "dns4", "dns6") if plB[k]]
+        if len(set(ports)) == len(ports):
+            return plB
+    return plB
+
+
+def pf_reachable(pl):
+    """pf plans inside the reachable space: every family that is set up has an entry (pf.py:458-470 otherwise)"""
+    for fam in (4, 6):
+        if not [e for e in pl["entries"] if e["fam"] == fam]:
+            pl = dict(pl, ns=[n for n in pl["ns"] if n["fam"] != fam])
+    return pl
+
+
+def E4(txt, w, excl=False, fp=0, lp=0):
+    return {"fam": 4, "width": w, "excl": excl, "txt": txt, "net": addr_num(txt), "fport": fp, "lport": lp}
+
+
+def E6(txt, w, excl=False, fp=0, lp=0):
+    return {"fam": 6, "width": w, "excl": excl, "txt": txt, "net": addr_num(txt), "fport": fp, "lport": lp}
+
+
+STALE_A = {"entries": [E4("10.0.0.0", 8), E4("10.9.0.0", 16, True), E6("fd00:a::", 32)],
+           "ns": [{"fam": 4, "txt": "10.0.0.53", "addr": addr_num("10.0.0.53")},
+                  {"fam": 6, "txt": "fd00:a::53", "addr": addr_num("fd00:a::53")}],
+           "port6": 12300, "port4": 12300, "dns6": 12299, "dns4": 12299, "udp": False, "user": None, "group": None,
+           "tmark": "0x01", "anchors": {4: [addr_num("10.2.3.4"), addr_num("10.9.1.1")], 6: [addr_num("fd00:a::1")]}}
+STALE_B = {"entries": [E4("192.168.0.0", 16), E4("192.168.5.0", 24, True), E4("10.9.0.0", 16), E6("fd00:b::", 32)],
+           "ns": [{"fam": 4, "txt": "192.168.0.53", "addr": addr_num("192.168.0.53")}],
+           "port6": 12300, "port4": 12300, "dns6": 0, "dns4": 12298, "udp": False, "user": None, "group": None,
+           "tmark": "0x01", "anchors": {4: [addr_num("192.168.1.1"), addr_num("192.168.5.5"), addr_num("10.9.1.1")],
+                                        6: [addr_num("fd00:b::1")]}}
+F140_PKT = {"fam": 4, "dst": addr_num("192.168.1.1"), "proto": "tcp", "dport": 80, "local": False, "origin": "L",
+            "uid": 1000, "gid": 100, "sock": False, "srclo": False}
+
+
+def stale_packets(rng, plA, plB, n):
+    return gen_packets(rng, plB, n) + gen_packets(rng, plA, n)
+
+
+def stale_dimension(ctx):
+    import random
+    rng = random.Random(ctx.seed * 7919 + 303)       # own stream: the plans of the other sections stay what they were
+    quick = ctx.quick()
+    kern = kernel_for(ctx)
+    try:
+        # ---- fixed: 10/8 (-x 10.9/16, ns 10.0.0.53) killed after every k, then 192.168/16 -x 192.168.5/24 + 10.9/16 on the same port
+        for m in METHODS:
+            a, b = (pf_reachable(STALE_A), pf_reachable(STALE_B)) if m.startswith("pf") else (STALE_A, STALE_B)
+            stale_case(ctx, kern, m, a, b, stale_packets(rng, a, b, 30), nprefix=None)
+            stale_case(ctx, kern, m, b, a, stale_packets(rng, b, a, 30), nprefix=None)
+        # ---- F140 witness (nat, the earlier session ran for uid 1000, the running one for uid 1001)
+        fails = stale_case(ctx, kern, "nat", dict(STALE_B, user=1000), dict(STALE_B, user=1001), [F140_PKT], nprefix=0)
+        if any(f[3] == "F140" for f in fails):
+            ctx.known("F140", F140_TEXT)
+        else:
+            ctx.notes.append("F140 witness no longer fails on this tree")
+        # same owner: the MARK rule of the earlier session is the one restore_firewall deletes
+        stale_case(ctx, kern, "nat", dict(STALE_A, user=1000, group=100), dict(STALE_B, user=1000, group=100),
+                   stale_packets(rng, STALE_A, STALE_B, 30), nprefix=None)
+        # ---- generated pairs
+        npairs = 30 if quick else 600
+        npk = 24 if quick else 40
+        for i in range(npairs):
+            plA = gen_plan(rng, small=(i % 2 == 0))
+            plB = related_plan(rng, plA)
+            for m in METHODS:
+                if m == "pfd" and i % 3:
+                    continue
+                va, vb = variant(rng, plA, m), variant(rng, plB, m)
+                if m == "nat" and rng.random() < 0.6:
+                    vb = dict(vb, user=va["user"], group=va["group"])
+                if m.startswith("pf"):
+                    va, vb = pf_reachable(va), pf_reachable(vb)
+                stale_case(ctx, kern, m, va, vb, stale_packets(rng, va, vb, npk), rng=rng,
+                           nprefix=(2 if quick else 5))
+        if not quick:
+            stale_netns_validate(ctx, kern, rng)
+    finally:
+        kern.close()
 
 
 # ----------------------------------------------------------------- thorough: real iptables in a namespace
@@ -1076,6 +1705,18 @@ def replay(ctx, rp):
         print("nothing replayable in", rp.get("kind"))
         return False
     pl = dict(r["plan"], anchors={4: [0], 6: [0]})
+    if "stale" in r:
+        # set-up of r["plan"] over what r["stale"]["plan"] left after that many commands of its own set-up
+        kern = kernel_for(ctx)
+        try:
+            sf = stale_case(ctx, kern, r["method"], dict(r["stale"]["plan"], anchors={4: [0], 6: [0]}), pl, [r["packet"]],
+                            only_k=[int(r["stale"]["after_commands"])])
+        finally:
+            kern.close()
+        for p, got, want, finding in sf:
+            print("method %s, after a killed session's leftovers, packet %r: rules give %s, specification of the running "
+                  "session demands %s%s" % (r["method"], p, got, want, " (%s)" % finding if finding else ""))
+        return bool(sf) or bool(ctx.disagreements)
     fails = check_case(ctx, r["method"], pl, [r["packet"]])
     for p, got, want in fails:
         print("method %s packet %r: emitted rules give %s, specification demands %s" % (r["method"], p, got, want))
